@@ -14,7 +14,7 @@ ASSUMPTIONS = ["OS thread schedules are not modelled: Rust ownership + forbid(un
 
 def generate(rng, tier):
     cs = []
-    n, maxops = (80, 60) if tier == "quick" else (1500, 600)
+    n, maxops = (80, 60) if tier == "quick" else (6000, 600)
     for exp, role in (("v", "s"), ("t", "s"), ("w", "s"), ("w", "c")):
         for _ in range(n):
             K = special_key(rng)
@@ -78,7 +78,7 @@ def generate(rng, tier):
     pw(K[20:] + K[:20], "pair-halves-swapped"); pw(K[::-1], "pair-reversed"); pw(K[8:] + K[:8], "pair-rotated")
     # two real threads
     for exp, role in (("v", "s"), ("t", "s"), ("w", "s"), ("w", "c")):
-        for _ in range(10 if tier == "quick" else 250):
+        for _ in range(10 if tier == "quick" else 1000):
             K = rbytes(rng, 40)
             ech = [rbytes(rng, rng.randint(1, 64)) for _ in range(rng.randint(1, 40))]
             dch = [rbytes(rng, rng.randint(1, 64)) for _ in range(rng.randint(1, 40))]
